@@ -6,6 +6,7 @@ import IndicatorVerif.Model.StrategyOps
 import IndicatorVerif.Model.Assets
 import IndicatorVerif.Model.NetMachines
 import IndicatorVerif.Model.NetSma
+import IndicatorVerif.Model.NetWindow
 /-
   ivdriver: runs the executable models on cases received over a line protocol (stdin → stdout).
   One case per line, one result per line.  Floats travel as 16-digit hex bit patterns.
@@ -442,6 +443,14 @@ def runNet (name fixed cap as bs : String) : String :=
     else (if clean then "ok" else "deadlock") ++ " | " ++ (if out.isEmpty then "-" else ",".intercalate (out.map toString))
   | "sma", some c, some a, some [p, b] =>
     let (term, clean, out) := NetM.smaRun c b.toNat p.toNat a
+    if !term then "fuel"
+    else (if clean then "ok" else "deadlock") ++ " | " ++ (if out.isEmpty then "-" else ",".intercalate (out.map toString))
+  | "wmax", some c, some a, some [p, b] =>
+    let (term, clean, out) := NetM.winRun (NetM.maxStep p.toNat) [0] c b.toNat p.toNat a
+    if !term then "fuel"
+    else (if clean then "ok" else "deadlock") ++ " | " ++ (if out.isEmpty then "-" else ",".intercalate (out.map toString))
+  | "wmin", some c, some a, some [p, b] =>
+    let (term, clean, out) := NetM.winRun (NetM.minStep p.toNat) [0] c b.toNat p.toNat a
     if !term then "fuel"
     else (if clean then "ok" else "deadlock") ++ " | " ++ (if out.isEmpty then "-" else ",".intercalate (out.map toString))
   | "ema", some c, some a, some [p, mul] =>
